@@ -186,7 +186,7 @@ static void on_received(struct side *rx, const unsigned char *buf, int rc, int c
         }
         int64_t limit = tx->bytes_sent_acc + (tx->inflight >= 0 ? tx->inflight_len : 0);
         if (off + rc > limit) {
-            snprintf(sig, sizeof sig, "C02/bytes-never-accepted/tp=%s", g_tp);
+            snprintf(sig, sizeof sig, "C02/bytes-never-accepted/retry=%s/tp=%s", g_retry[0] ? g_retry : "same", g_tp);
             V("C02", sig, "%s received %lld bytes but only %lld were accepted (+%d offered in a call in progress)",
               rx->name, (long long)(off + rc), (long long)tx->bytes_sent_acc,
               tx->inflight >= 0 ? tx->inflight_len : 0);
@@ -207,7 +207,8 @@ static void on_received(struct side *rx, const unsigned char *buf, int rc, int c
                     if (pos - tx->refused_at[r] >= 0 && pos - tx->refused_at[r] < tx->refused_len[r] &&
                         tx->refused[r][pos - tx->refused_at[r]] == buf[j])
                         refused = 1;
-                snprintf(sig, sizeof sig, "C02/%s/tp=%s", refused ? "refused-bytes-in-stream" : "wrong-byte", g_tp);
+                snprintf(sig, sizeof sig, "C02/%s/retry=%s/tp=%s", refused ? "refused-bytes-in-stream" : "wrong-byte",
+                         g_retry[0] ? g_retry : "same", g_tp);
                 V("C02", sig, "%s: stream byte %lld is 0x%02x, the accepted stream has 0x%02x%s", rx->name,
                   (long long)pos, buf[j], want, refused ? " (the byte was offered at this position in a call that returned -1/EAGAIN)" : "");
                 break;
@@ -289,7 +290,7 @@ static void on_send_result(struct side *tx, int m, int len, int rc, int err)
             V("C02", sig, "xcm_send(len=%d) returned 0", len);
         }
         if (rx->bytes_rcv > tx->bytes_sent_acc) {
-            snprintf(sig, sizeof sig, "C02/failed-bytes-delivered/tp=%s", g_tp);
+            snprintf(sig, sizeof sig, "C02/failed-bytes-delivered/retry=%s/tp=%s", g_retry[0] ? g_retry : "same", g_tp);
             V("C02", sig, "peer has %lld bytes, only %lld accepted after a send returning %d/%s",
               (long long)rx->bytes_rcv, (long long)tx->bytes_sent_acc, rc, errname(err));
         }
@@ -343,7 +344,8 @@ static void terminal(struct side *x, const char *op, int err)
     char sig[160];
     if (x->n_refused > 0 || x->had_eagain_send) {
         /* C03: after a send refused with EAGAIN the connection must remain fully usable */
-        snprintf(sig, sizeof sig, "C03/unusable-after-refused-send/%s/%s/tp=%s", op, errname(err), g_tp);
+        snprintf(sig, sizeof sig, "C03/unusable-after-refused-send/%s/%s/retry=%s/tp=%s", op, errname(err),
+                 g_retry[0] ? g_retry : "same", g_tp);
         V("C03", sig, "%s: after an xcm_send refused with EAGAIN (retry policy '%s') %s failed with %s; the peer is alive and "
           "the environment injected no fault", x->name, g_retry[0] ? g_retry : "same", op, errname(err));
     }
@@ -803,6 +805,9 @@ static void build_script(const char *name)
     } else if (strcmp(name, "S2") == 0) {     /* bytestream: a large write crossing a TLS record, then 3 bytes */
         add(&A, OP_SEND, 40000); add(&A, OP_SEND, 3); add(&A, OP_FINISH, 0); add(&A, OP_CLOSE, 0);
         add(&B, OP_RECV_EOF, 65536);
+    } else if (strcmp(name, "S4") == 0) {     /* bytestream: the accepted side writes across TLS records, then 3 bytes */
+        add(&B, OP_SEND, 40000); add(&B, OP_SEND, 3); add(&B, OP_FINISH, 0); add(&B, OP_CLOSE, 0);
+        add(&A, OP_RECV_EOF, 65536);
     } else if (strcmp(name, "R1") == 0) {     /* bytestream: refused sends retried per policy (retry=...) */
         add(&A, OP_SEND, 8); add(&A, OP_SEND, 8); add(&A, OP_SEND, 3); add(&A, OP_FINISH, 0); add(&A, OP_CLOSE, 0);
         add(&B, OP_RECV_EOF, 65536);
